@@ -13,6 +13,7 @@ from plasTeX import ismacro, macroName
 from plasTeX.TeX import TeX
 from plasTeX.Logging import getLogger
 from plasTeX.Base.TeX.Primitives import relax
+from plasTeX import _verif
 from plasTeX.Tokenizer import Tokenizer, Token, DEFAULT_CATEGORIES, VERBATIM_CATEGORIES
 import plasTeX
 import plasTeX.Packages
@@ -673,6 +674,7 @@ class Context(object):
             self.contexts.append(self.createContext(context))
 
         self.mapMethods()
+        if _verif.ENABLED: _verif.emit('ctx.push', ctx=self, obj=context)
 
     append = push
 
@@ -783,6 +785,7 @@ class Context(object):
                 self.contexts.pop()
 
         self.mapMethods()
+        if _verif.ENABLED: _verif.emit('ctx.pop', ctx=self, obj=obj)
 
     def addGlobal(self, key, value):
         """
@@ -805,6 +808,7 @@ class Context(object):
             raise ValueError('"%s" does not implement the macro interface' % key)
 
         self.contexts[0][macroName(value)] = value
+        if _verif.ENABLED: _verif.emit('ctx.addGlobal', ctx=self, key=key, value=value)
 
     __setitem__ = addGlobal
 
@@ -829,6 +833,7 @@ class Context(object):
             raise ValueError('"%s" does not implement the macro interface' % key)
 
         self.contexts[-1][macroName(value)] = value
+        if _verif.ENABLED: _verif.emit('ctx.addLocal', ctx=self, key=key, value=value)
 
     def whichCode(self, char):
         """
@@ -888,6 +893,7 @@ class Context(object):
         # Don't insert if it's code 12.
         if code != 12:
             c[code] += char
+        if _verif.ENABLED: _verif.emit('ctx.catcode', ctx=self, char=char, code=code)
 
     def setVerbatimCatcodes(self):
         """
@@ -897,6 +903,7 @@ class Context(object):
 
         """
         self.contexts[-1].categories = self.categories = VERBATIM_CATEGORIES[:]
+        if _verif.ENABLED: _verif.emit('ctx.verbatim', ctx=self)
 
     def newcounter(self, name, resetby=None, initial=0, format=None, trimLeft = False):
         """
@@ -1191,6 +1198,7 @@ class Context(object):
             self.top[dest.nodeName] = self[source.nodeName]
         else:
             self.top.lets[dest.nodeName] = source
+        if _verif.ENABLED: _verif.emit('ctx.let', ctx=self, dest=dest, source=source)
 
     def chardef(self, name, num):
         """
